@@ -157,6 +157,17 @@ static void auditCompound(int kind, const ADD& d, vf::Case& c, const std::string
     bool before = c.failed;
     c.failed = false;
     auditNormalisation(*n, c, ctx + " component " + n->getName(), std::string("component-of-") + ckClass(kind));
+    // a nested continuous family is itself a discretised distribution: every clause of the statement applies to it in the state the
+    // compound left it in (class count, flags and scheme are taken as the component reports them)
+    if (!c.failed) if (auto* a = dynamic_cast<const ADD*>(n)) {
+      int fam = -1;
+      if (auto* g = dynamic_cast<const GammaDiscreteDistribution*>(a)) fam = g->hasParameter("offset") ? F_GAMMAOFF : F_GAMMA;
+      else if (dynamic_cast<const BetaDiscreteDistribution*>(a)) fam = F_BETA;
+      else if (dynamic_cast<const GaussianDiscreteDistribution*>(a)) fam = F_GAUSS;
+      else if (dynamic_cast<const ExponentialDiscreteDistribution*>(a)) fam = F_EXPO;
+      else if (dynamic_cast<const UniformDiscreteDistribution*>(a)) fam = F_UNIF;
+      if (fam >= 0) { AuditOpt o{a->getNumberOfCategories(), a->median_, a->discretizationScheme_, (Fam)fam}; auditPartition(*a, o, c, ctx + " nested component " + a->getName()); c.tag("compound:nested-component-audited"); }
+    }
     bool bad = c.failed; c.failed = before || bad;
     if (bad) return;
   }
